@@ -9,6 +9,7 @@ CONSTANTS Nib = {0, 1, 15}
           Depth = 25
           NBatch = 3
           NKeys = 4
+          Encs = {"nil", "empty", "mixed"}
           BOps <- OpsAll
           BatchLens = {3, 4, 5, 7}
           BatchSet <- SimBatchSet
